@@ -20,7 +20,7 @@ func VGMapOf(keys, vals []int) *Map[int, int] {
 func VHMapStep() {
 	keys, vals := maps.VPairs(false)
 	m := VGMapOf(keys, vals)
-	maps.VMapStep(m, keys, vals, maps.VKind{Inv: func() { v.Assert(m.m != nil, "inv-map-nil") }})
+	maps.VMapStep(m, keys, vals, maps.VKind{Name: "HashMap", Inv: func() { v.Assert(m.m != nil, "inv-map-nil") }})
 }
 
 // VHSnap: returned slices are snapshots, argument slices are copied, GetSortedValues leaves the container alone (C16).
